@@ -538,11 +538,18 @@ func C05(tier string) int {
 		bound = 2
 	}
 	var faultIns []c05input
+	multi := map[int]int{}
 	for i, in := range ins {
 		if i%97 == 0 || !(in.bare || in.nObj > 0) {
 			faultIns = append(faultIns, in)
+		} else if in.nObj >= 2 && multi[in.nObj] < 3 {
+			multi[in.nObj]++ // always some Creates with several objects (a fault on a non-last object)
+			faultIns = append(faultIns, in)
 		}
 	}
+	// a Create with three objects even in the quick tier
+	faultIns = append(faultIns, c05input{name: "create-3 fixed", entry: "PostOutbox", kind: ap.Both, nObj: 3,
+		body: Doc("Create", "", "actor", Alice, "to", Carol, "object", L{Emb("Note", "", "content", "a"), Emb("Note", "", "content", "b", "bcc", Dave), Emb("Article", "", "content", "c")})})
 	parallel(len(faultIns), func(i int) {
 		in := faultIns[i]
 		sc := &Scenario{Name: in.name, Kind: in.kind, Entry: in.entry, URL: outbox(Alice), Body: in.body, Tweak: world}
